@@ -5,7 +5,14 @@
 (*                                                                                           *)
 (* Event: kind, R, C, N, bg, en  the layout (see EventModeDefs)                              *)
 (*        out    "ok" | "unsupported" (the dense conversion refuses the same operands: the    *)
-(*               quantifier only covers supported dtypes) | "raised"                          *)
+(*               quantifier only covers supported dtypes) | "raised" | "malformed" (what came  *)
+(*               back is not a binned array over the same grid with a consistent buffer)      *)
+(*        hist   the history of the judged call (EventMode.tla, action Recall: the property    *)
+(*               holds for every call, whatever was called before or is called afterwards):    *)
+(*               "first" | "after_same_call" (the same object was converted once before) |     *)
+(*               "after_other_target" | "before_other_call" (another object of the same shape   *)
+(*               is converted before the result is looked at) | "replay" (the case again at    *)
+(*               the end of the run, in another order)                                         *)
 (*        bins   per bin (row-major): r = per event the set of <<pixel, slot>> ids whose      *)
 (*               dense value (implementation's dense conversion of the pixel x slot table)    *)
 (*               is bit-identical to the event's converted value;  w, v, x = per event the    *)
@@ -23,12 +30,16 @@ tvars == <<l, nbad>>
 
 ToSet(s) == { s[i] : i \in DOMAIN s }
 
-Judge(e) ==
+Hists == {"first", "after_same_call", "after_other_target", "before_other_call", "replay"}
+After(v, hist) == IF v = "ok" \/ hist = "first" THEN v ELSE v \o "_" \o hist
+
+Judge1(e) ==
     LET L == [kind |-> e.kind, R |-> e.R, C |-> e.C, N |-> e.N, bg |-> e.bg, en |-> e.en]
         B == NBins(L)
     IN
-    IF ~WellFormed(L) THEN "layout_not_well_formed"
+    IF ~WellFormed(L) \/ e.hist \notin Hists THEN "layout_not_well_formed"
     ELSE IF e.out = "unsupported" THEN "ok"
+    ELSE IF e.out = "malformed" THEN "result_malformed"
     ELSE IF e.out # "ok" THEN "event_mode_raised_but_dense_converts"
     ELSE IF Len(e.bins) # B THEN "bin_count"
     ELSE IF \E b \in 1..B : Len(e.bins[b].x) # L.en[b] - L.bg[b] \/ Len(e.bins[b].r) # L.en[b] - L.bg[b]
@@ -51,6 +62,8 @@ Judge(e) ==
     ELSE IF ~e.same.coords THEN "unrelated_coordinates_changed"
     ELSE IF ~e.same.input THEN "input_modified"
     ELSE "ok"
+
+Judge(e) == After(Judge1(e), e.hist)
 
 TInit == l = 1 /\ nbad = 0
 TNext == /\ l <= Len(Tr)
